@@ -72,13 +72,16 @@ def gen_c12(rng):
     cfg = (mk['nc'], mk['ns'])
     hist = [mk] + fill_steps(rng, mk, 0, rng.randint(1, 3)) + [chk(0)]
     nxt = 1
-    # a mask map on the same grid
+    # a mask map of the same resolution (its coverage resolution may differ from the map's)
+    mcfg = cfg
+    if rng.random() < 0.35:
+        mcfg = (rng.choice([c for c in (1, 2, 4, 8) if c <= cfg[1]]), cfg[1])
     if rng.random() < 0.5:
-        mm = dict(op='mk', h=50, kind='wide', nc=cfg[0], ns=cfg[1], maxbits=rng.choice([3, 8, 9, 20]), sentinel=None,
+        mm = dict(op='mk', h=50, kind='wide', nc=mcfg[0], ns=mcfg[1], maxbits=rng.choice([3, 8, 9, 20]), sentinel=None,
                   cov_pixels=None)
     else:
         mdt = rng.choice(['i2', 'i4', 'i8', 'u1', 'u2', 'u8', 'i1'])
-        mm = mk_plain(rng, 50, cfg, mdt, sentinel=0)
+        mm = mk_plain(rng, 50, mcfg, mdt, sentinel=0)
     hist.append(mm)
     hist += fill_steps(rng, mm, 50, rng.randint(1, 2), none_ok=False)
     cur = 0
@@ -206,6 +209,11 @@ def gen_c12(rng):
             hist.append(chk(cur))      # the source is unchanged
             cur = out
             nxt += 1
+    if mk['kind'] == 'plain' and cfg[1] >= 4 * cfg[0] and rng.random() < 0.3:
+        # conversion to a bit-packed validity map (the source may have grown in any order)
+        hist.append(dict(op='aspacked', h=cur, out=nxt))
+        hist.append(chk(nxt, ['values', 'cov', 'valid', 'nvalid']))
+        hist.append(chk(cur, ['values', 'cov', 'valid']))
     return hist
 
 
@@ -334,7 +342,13 @@ def gen_c06(rng):
         sent = mk.get('sentinel')
         hist.append(dict(op='upd', h=mk['h'], form='pix', operation='replace', expect='ok', pixels=pix,
                          values=vals, single=False))
-    st = dict(op='mop', out=20, name=name, hs=list(range(nm)))
+    hs = list(range(nm))
+    if rng.random() < 0.2:
+        # the same map object listed twice (the first map again later in the list included)
+        hs.insert(rng.randint(1, len(hs)), rng.choice([0, 0, hs[-1]]))
+    st = dict(op='mop', out=20, name=name, hs=hs)
+    if name.startswith('divide') and mode == 'float' and dt == 'f8' and rng.random() < 0.3:
+        st['dtype_out'] = 'f4'       # a narrower requested output type
     if name.startswith('ufunc'):
         uf = rng.choice(['add', 'multiply', 'maximum', 'minimum', 'subtract'] if mode == 'float'
                         else ['add', 'maximum', 'minimum'])
@@ -717,6 +731,14 @@ def gen_c14(rng):
         else:
             f = rng.choice(names)
             hist.append(dict(op='vwrite_valid', h=0, field=f, n=rng.randint(1, 4), seed=rng.randrange(10 ** 6)))
+        if rng.random() < 0.3:
+            # a write through a view addressed by pixel ranges (either side of the size threshold) that reach
+            # over invalid pixels: rejected, the parent unchanged
+            npix_ = npix_of((mk['nc'], mk['ns']))
+            a_ = rng.randrange(npix_)
+            b_ = min(npix_, a_ + rng.randint(2, 3 * nfine_of((mk['nc'], mk['ns']))))
+            f = rng.choice(names)
+            hist.append(dict(op='vrange', h=0, field=f, ranges=[(a_, b_)], value=1, thr=rng.choice([0, 0, None])))
         hist.append(chk(0))
         f = rng.choice(names)
         hist.append(dict(op='single', h=0, out=10, field=f, copy=True))
@@ -764,7 +786,12 @@ def gen_c02(rng):
         r = rng.random()
         # the cached count is always populated before the mutation
         hist.append(chk(0, ['nvalid']))
-        if r < 0.3:
+        if mk['kind'] == 'wide' and rng.random() < 0.3:
+            # in-place operator with a bit list: '&' keeps only the listed bits, '^' can empty pixels
+            width = (mk['maxbits'] - 1) // 8 + 1
+            hist.append(dict(op='sop', h=0, out=0, inplace=True, fn=rng.choice(['&', '&', '^', '|']),
+                             bits=sorted(set(rng.randrange(8 * width) for _ in range(rng.randint(1, 3))))))
+        elif r < 0.3:
             hist.append(rand_update(rng, mk, h=0))
         elif r < 0.5:
             ops = legal_ops(mk)
@@ -800,8 +827,13 @@ def gen_c02(rng):
                 hist.append(dict(op='sop', h=0, out=0, inplace=True, fn='+', scalar=rng.choice([0, 1])))
         elif r < 0.62 and mk['kind'] == 'wide':
             width = (mk['maxbits'] - 1) // 8 + 1
-            hist.append(dict(op='bits', h=0, which=rng.choice(['set', 'clear']),
-                             pixels=rand_pixels(rng, mk, unique=False, nmax=6), bits=[rng.randrange(8 * width)]))
+            if rng.random() < 0.5:
+                hist.append(dict(op='bits', h=0, which=rng.choice(['set', 'clear']),
+                                 pixels=rand_pixels(rng, mk, unique=False, nmax=6), bits=[rng.randrange(8 * width)]))
+            else:
+                # in-place operator with a bit list: '&' / '^' can empty pixels, '|' changes none
+                hist.append(dict(op='sop', h=0, out=0, inplace=True, fn=rng.choice(['&', '^', '^', '|']),
+                                 bits=sorted(set(rng.randrange(8 * width) for _ in range(rng.randint(1, 3))))))
         elif r < 0.62 and mk['kind'] == 'rec':
             names = [n for n, _ in mk['fields']]
             hist.append(dict(op='vwrite_valid', h=0, field=rng.choice(names), n=2, seed=rng.randrange(10 ** 6)))
@@ -1257,10 +1289,19 @@ def gen_c16_rec(rng):
     for v in vals:
         while sent is not None and v[ip] == sent:
             v[ip] = v[ip] + 1
+    # a boolean flag column next to the numeric ones (never the primary)
+    boolf = None
+    others = [n for n in names if n != mk['primary']]
+    if others and rng.random() < 0.4:
+        boolf = rng.choice(others)
+        mk['fields'] = [(n, 'b' if n == boolf else t) for n, t in mk['fields']]
+        ib = names.index(boolf)
+        for v in vals:
+            v[ib] = rng.random() < 0.6
     hist.append(dict(op='upd', h=0, form='pix', operation='replace', expect='ok', pixels=pix, values=vals, single=False))
     hist.append(chk(0))
     for _ in range(rng.randint(1, 2)):
-        f = rng.choice(names)
+        f = rng.choice([n for n in names if n != boolf])
         ft = dict(mk['fields'])[f]
         sub = [p for p in pix if rng.random() < 0.6] or pix[:1]
         if ft in FLT_DT:
@@ -1273,6 +1314,8 @@ def gen_c16_rec(rng):
         hist.append(dict(op='vwrite', h=0, field=f, pixels=sub, values=vv, target='valid', ring=True))
         hist.append(chk(0))
     hist.append(dict(op='tohp', h=0, key=rng.choice(names)))
+    if boolf is not None:
+        hist.append(dict(op='tohp', h=0, key=boolf))       # the dense export of the flag column: False where invalid
     return hist
 
 
